@@ -1,8 +1,47 @@
 """C16 — serialisation: harness/serial.cpp (raw write/read through std::stringstream at every truncation point,
 back-to-back polynomials, operator<< text, cereal archives; ASan+UBSan + canaries) against Model/Serial.lean and the
 directly written layout rules in Driver/SerialH.lean."""
-import os
+import json, os
 import checklib as cl
+import _cow_common as _cc
+
+
+def translators(repo):
+    """source-level tie of the serialisers: Generated/SerAst.lean is re-translated from clang's AST on every run
+    (poly::serialize_manually / deserialize_manually, poly::serialize<cereal::Binary{Output,Input}Archive>, begin/end() const,
+    nfl::operator<<(ostream&, poly const&), static N; poly<uint64_t,8,2>, poly<uint32_t,16,3>, poly<uint16_t,4,1> must give the
+    same text); the equalities with Model/Serial.lean (Proofs/SerAstEq.lean) and the transported C16 statements
+    (Properties/C16Ast.lean) are then re-checked by `lake build`.  Properties/C16Ast.lean reuses Generated/CowAst.lean for the
+    poly_p forwarders, so tools/gen_cow_ast.py is re-run too."""
+    out = _cc.translators_cow(repo)
+    r = cl.run(["python3", os.path.join(cl.HERE, "gen_ser_ast.py"), "--repo", repo])
+    info = {"ok": r.returncode == 0}
+    if r.returncode != 0:
+        info["err"] = (r.stdout + r.stderr)[-2000:]
+    else:
+        try:
+            info.update(json.loads(r.stdout.strip().splitlines()[-1]))
+            info.pop("node_kinds", None)
+        except Exception as e:
+            info["ok"] = False
+            info["err"] = "unparsable summary: %s" % e
+    out["gen_ser_ast"] = info
+    return out
+
+
+SER_AST_TB = ("source-level tie of the serialisers of nfl::poly (which iostream / cereal call, with which pointer and which count; the "
+              "typeid chain, the range-for and its `first` flag in operator<<): clang++-14's typed AST (-ast-dump=json) of the bodies "
+              "instantiated by tools/gen_ser_ast.py's translation unit, that script's traversal and its BY-NAME table, i.e. the contract "
+              "lean/NflVerif/Model/StreamSem.lean (NOT derived from libstdc++ / cereal sources): ostream::write / istream::read as in the "
+              "iostream contract above, reinterpret_cast<char*>(T[N]) = the x86-64 little-endian object representation (Ss.objRepr / "
+              "Ss.ofObjRepr: the only place endianness enters), size_t arithmetic mod 2^64 and size_t -> streamsize as two's complement, "
+              "os << const char* / std::string / unsigned integer, typeid equality = type identity, std::begin/std::end of T[N] = "
+              "offsets 0 / N, range-for over pointers; cereal Binary{Output,Input}Archive::operator()(T(&)[N]) = binary_data of the "
+              "whole array through rdbuf()->sputn / sgetn (short transfer throws); poly has exactly one non-static data member `_data` "
+              "of type T[N] (checked by the translator); the poly_p forwarders are the step functions of tools/gen_cow_ast.py "
+              "(Generated/CowAst.lean) with the translated poly reader plugged in as the value-level meaning of the forwarded call; "
+              "poly_p::serialize(Archive&), cereal's portable-binary / JSON archives and poly_p's operator<< are NOT translated "
+              "(hand model + differential stream)")
 
 COMMON_TB = [
     "Lean 4.33.0 kernel; axioms limited to propext, Classical.choice, Quot.sound (audited by #print axioms on every run)",
@@ -72,10 +111,11 @@ def search(ctx, res, problems):
 
 
 PROP = {
-    "streams": streams, "search": search,
+    "streams": streams, "search": search, "translators": translators,
     "rule": "raw serialise (bytes compared one by one with the documented layout), raw deserialise from streams cut at EVERY byte offset 0…n·m·w/8, of exact length, and longer (rest of stream compared), arbitrary byte streams, three polynomials back to back (complete and cut streams, sticky failbit), write→read round trips, operator<< text (parsed back by the verified parser), cereal binary/portable-binary/JSON round trips, two objects per archive, truncated archives; histories of statements (write / read / copy / element store) over 1…8 variables and ONE stream, raw and every cereal archive, where the receiving object of a read has a past: old contents, written before, poly_p storage shared with 1…4 other handles (copy constructors, copy assignment, std::vector<poly_p>(k, prototype) with the prototype destroyed or alive), reads back to back into handles that share with each other, writes of shared handles, a read when nothing is left (sticky failbit) — contents of ALL variables after EVERY statement compared with the value-level reading; poly and poly_p; words random (non-canonical), canonical, 0, 2^w-1, distinct-byte ramp, second-half-only; canaries around the plain object + ASan; distinct = distinct lines",
     "trusted_base": COMMON_TB + ["iostream contracts: ostream::write appends the bytes; istream::read extracts min(requested, available) bytes, leaves the rest of the buffer untouched and sets failbit on a short read, is a no-op on a failed stream; operator<< on unsigned integers prints decimal digits (default flags)",
                                  "cereal (archive framing, C-array handling, JSON number formatting) is a contract: only the round trip through it is checked, by the harness",
+                                 SER_AST_TB,
                                  "the text parser used as oracle is the one proved inverse to the model's printer (text_roundtrip)"],
     "assumptions": ["little-endian host (the header documents that the format is not portable across endianness)",
                     "streams are binary and carry default formatting flags"],
